@@ -493,6 +493,13 @@ def run(ctx):
     r5.ok("functions scanned", "%d header codec functions" % n, "src/common")
     r5.floor(1, "scan")
 
+    # ---- R9 value-dependent widths ------------------------------------------------------------------------------
+    r9 = ctx.rule("C06.R9", "field-width selection: nb_bytes_64 / nb_bytes_128 return the smallest even byte count that holds every set bit (2*k under "
+                            "`value & (0xFFFF << 16(k-1)) != 0` and all higher 16-bit groups zero, `min` for 0); in push_lct_header S is bit 2 and the TSI half-word "
+                            "flag bit 1 of that count, O bits 3..2 and the TOI half-word flag bit 1 of the TOI count, H their OR, and C the smallest value with "
+                            "4*(C+1) >= the CCI count; get_ext treats an extension as fixed-length (one word) iff HET >= 128", "arm table + E5 bit provenance + sign table")
+    width_class_rule(ctx, r9)
+
     # ---- R8 EXT_TIME reader and the NTP helpers -----------------------------------------------------------------
     r8 = ctx.rule("C06.R8", "EXT_TIME: parse_sct takes SCT-High / SCT-Low / ERT / SLC from Use-field bits 16..19, expects 4*(1 + number of flags) bytes, "
                             "returns None without SCT-High, reads the seconds from wire bits 32..63 and (only with SCT-Low) the fraction from bits 64..95, "
@@ -524,6 +531,149 @@ def run(ctx):
 
 
 # ---------------------------------------------------------------------------------------------------------------------
+def width_class_rule(ctx, rule):
+    from .. import polarity
+    from ..cfg import facts_of
+    prog = ctx.prog
+    for fn, width in (("common::lct::nb_bytes_64", 64), ("common::lct::nb_bytes_128", 128)):
+        f = prog.fn(fn)
+        ctx.analysed(f.path)
+        fl = Flow(f.body)
+        rets = ret_assign_blocks(f.body, lambda e: True)
+        short = fn.split("::")[-1]
+        seen = set()
+        bad = []
+        for bb, e in rets:
+            nz, z = set(), set()
+            for (a, t) in fl.facts_at(bb):
+                if a[0] == "eq":
+                    l_, r_ = bits.strip(a[1]), bits.strip(a[2])
+                    ops_ = None
+                    if l_[0] == "bin" and l_[1] == "BitAnd":
+                        ops_ = (l_[2], l_[3])
+                    elif l_[0] == "call" and l_[1].endswith("::bitand") and len(l_[2]) == 2:
+                        ops_ = (l_[2][0], l_[2][1])
+                    if show(r_) == "0" and ops_:
+                        m = const_value(bits.strip(ops_[1]))
+                        if m is None:
+                            m = const_value(bits.strip(ops_[0]))
+                        if m is not None:
+                            (z if t else nz).add(m)
+            v = const_value(e)
+            groups = width // 16
+            masks = {k: 0xFFFF << (16 * (k - 1)) for k in range(1, groups + 1)}
+            if v is None:
+                # the `min` fallback: every group is zero
+                if show(e) == "min" and z == set(masks.values()) and not nz:
+                    seen.add(0)
+                else:
+                    bad.append("returns %s under non-zero %s / zero %s" % (show(e, 30), sorted(nz), sorted(z)))
+                continue
+            k = v // 2
+            if v % 2 or not (1 <= k <= groups):
+                bad.append("returns the odd or out-of-range byte count %s" % v)
+                continue
+            if nz == {masks[k]} and z == {masks[j] for j in range(k + 1, groups + 1)}:
+                seen.add(k)
+            else:
+                bad.append("returns %d under non-zero %s / zero %s" % (v, [hex(m) for m in sorted(nz)], [hex(m) for m in sorted(z)]))
+        key = "%s width classes" % short
+        if not bad and seen == set(range(0, width // 16 + 1)):
+            rule.ok(key, "%d classes: 2k bytes iff the k-th 16-bit group is the highest non-zero one" % len(seen), loc(f.sp))
+        else:
+            rule.violation(key, "%s does not return the smallest even byte count holding the value (%s): push_lct_header derives the S/O/H flags from bits 1..3 of "
+                                "that count and would drop the top byte(s) of the field" % (short, "; ".join(bad[:2]) or "classes found %s" % sorted(seen)), loc(f.sp))
+    # flags from the counts
+    w = prog.fn("common::lct::push_lct_header")
+    sl = Slicer(w.body)
+    fl = Flow(w.body)
+    vd = sl.var_defs()
+    stop = {"tsi_size", "toi_size", "cci_size"}
+    ev = bits.Eval(leaf_namer=lambda e: show(e, 40))
+
+    def bitsof(name):
+        ds = [d for d in vd.get(name, []) if d[0] == ""]
+        if len(ds) != 1:
+            return None
+        try:
+            return bits.runs(ev.bits(sl.expand(ds[0][1], stop=stop)))
+        except bits.Unknown:
+            return None
+
+    def only(rs):
+        return [r for r in (rs or []) if not (r[0] == "const" and r[2] == 0)]
+    want = {"s": ("tsi_size", 1, 2), "h_tsi": ("tsi_size", 1, 1), "o": ("toi_size", 2, 2), "h_toi": ("toi_size", 1, 1)}
+    for name, (src, wd, lowbit) in sorted(want.items()):
+        rs = bitsof(name)
+        nz = only(rs)
+        key = "push_lct_header %s" % name
+        ok = rs is not None and len(nz) == 1 and nz[0][0] == "field" and nz[0][1] == wd and nz[0][2] == src and nz[0][3] == lowbit and rs[-1] == nz[0]
+        if ok:
+            rule.ok(key, "= bit%s %s of %s" % ("s" if wd > 1 else "", "%d..%d" % (lowbit + wd - 1, lowbit) if wd > 1 else lowbit, src), loc(w.sp))
+        else:
+            rule.violation(key, "`%s` is %s; expected bit%s %d.. of %s (byte count = 4*%s + 2*H)" % (name, rs, "s" if wd > 1 else "", lowbit, src, name.upper()[0]), loc(w.sp))
+    hd = [d for d in vd.get("h", []) if d[0] == ""]
+    if len(hd) == 1 and hd[0][1][0] == "bin" and hd[0][1][1] == "BitOr" and {show(hd[0][1][2]), show(hd[0][1][3])} == {"h_tsi", "h_toi"}:
+        rule.ok("push_lct_header h", "h_tsi | h_toi", loc(w.sp))
+    else:
+        rule.violation("push_lct_header h", "H = %s; expected h_tsi | h_toi" % [show(d[1], 40) for d in hd], loc(w.sp))
+    # C from the CCI count
+    cd = [d for d in vd.get("c", []) if d[0] == ""]
+    okc = len(cd) == 4
+    seen = set()
+    for (_, e, bb) in cd:
+        k = const_value(e)
+        ub, lb = None, None
+        for (a, t) in fl.facts_at(bb):
+            if a[0] == "le" and t and const_value(a[2]) is not None and "size" in show(a[1]):
+                ub = const_value(a[2]) if ub is None else min(ub, const_value(a[2]))
+            if a[0] == "lt" and t and const_value(a[1]) is not None and "size" in show(a[2]):
+                lb = const_value(a[1]) if lb is None else max(lb, const_value(a[1]))
+        if k is None or (k < 3 and ub != 4 * (k + 1)) or (k > 0 and lb != 4 * k):
+            okc = False
+        else:
+            seen.add(k)
+    if okc and seen == {0, 1, 2, 3}:
+        rule.ok("push_lct_header c", "C = k for 4k < count <= 4(k+1)", loc(w.sp))
+    else:
+        rule.violation("push_lct_header c", "C is not the smallest value with 4*(C+1) >= CCI byte count: %s" % [(show(e, 10), bb) for _, e, bb in cd], loc(w.sp))
+    # sizes come from the helpers with the minimum the RFC prescribes
+    for name, (fn, mn) in {"cci_size": ("nb_bytes_128", "0"), "tsi_size": ("nb_bytes_64", "2"), "toi_size": ("nb_bytes_128", "2")}.items():
+        ds = [d for d in vd.get(name, []) if d[0] == ""]
+        e = ds[0][1] if len(ds) == 1 else None
+        arg0 = {"cci_size": "cci", "tsi_size": "tsi", "toi_size": "toi"}[name]
+        if e is not None and e[0] == "call" and e[1].endswith("lct::" + fn) and show(e[2][1]) == mn and re.sub(r"[&*()]", "", show(e[2][0])) == arg0:
+            rule.ok("push_lct_header %s" % name, "%s(%s, %s)" % (fn, arg0, mn), loc(w.sp))
+        else:
+            rule.violation("push_lct_header %s" % name, "%s = %s; expected %s(%s, %s)" % (name, show(e, 60) if e else "?", fn, arg0, mn), loc(w.sp))
+    # get_ext: fixed-length extensions are HET 128..255
+    g = prog.fn("common::lct::get_ext")
+    gfl = Flow(g.body)
+    gsl = Slicer(g.body)
+    found = False
+    for blk in g.body.blocks:
+        if blk.cleanup:
+            continue
+        for st in blk.stmts:
+            if st.k == "assign" and not st.lhs[1]:
+                e = gsl.x.rvalue(st.rv, gsl.x.depth)
+                if e[0] == "const" and e[2] == 4 and g.body.names.get(st.lhs[0], "").startswith("hel") or (e[0] == "const" and e[2] == 4 and "usize" in str(e[1])):
+                    fs = gfl.facts_at(blk.i)
+                    cmp_ = [(a, t) for (a, t) in fs if a[0] in ("lt", "le") and t and ("het" in show(a[1]) + show(a[2]) or "lct_ext_ext[0]" in show(a[1]) + show(a[2]))]
+                    if not cmp_:
+                        continue
+                    found = True
+                    okb = any((a[0] == "le" and const_value(a[1]) == 128) or (a[0] == "lt" and const_value(a[1]) == 127) for (a, t) in cmp_)
+                    if okb:
+                        rule.ok("get_ext fixed-length extensions", "HEL = 1 word iff HET >= 128", loc(st.sp))
+                    else:
+                        rule.violation("get_ext fixed-length extensions", "one-word length chosen under %s; RFC 5651: HET 128..255 are fixed-length" % [
+                            "%s %s %s" % (show(a[1], 20), "<" if a[0] == "lt" else "<=", show(a[2], 20)) for a, t in cmp_], loc(st.sp))
+    if not found:
+        rule.violation("get_ext fixed-length extensions", "no one-word length selected by a comparison of HET found", loc(g.sp))
+    rule.floor(12, "width facts")
+
+
 def ext_time_rule(ctx, rule):
     from .. import polarity
     from ..cfg import facts_of
